@@ -20,6 +20,7 @@ from glotaran.model.interval_item import IntervalItem
 from glotaran.model.item import fill_item
 from glotaran.optimization.data_provider import DataProvider
 from glotaran.optimization.data_provider import DataProviderLinked
+from glotaran.utils import verif_trace as _vt
 
 if TYPE_CHECKING:
     from glotaran.typing.types import ArrayLike
@@ -582,6 +583,22 @@ class MatrixProviderUnlinked(MatrixProvider):
                     matrix.create_weighted_matrix(weight[:, i])
                     for i, matrix in enumerate(self._prepared_matrix_container[label])
                 ]
+        if _vt.ENABLED and _vt.first(self):
+            _vt.emit(
+                "prepared",
+                datasets_in_group=list(self.group.dataset_models),
+                items=_vt.reduction_items(self.group.model),
+                datasets=[
+                    {
+                        "label": label,
+                        "axis": [float(v) for v in self._data_provider.get_global_axis(label)],
+                        "full": list(self.get_matrix_container(label).clp_labels),
+                        "reduced": [list(m.clp_labels) for m in containers],
+                    }
+                    for label, containers in self._prepared_matrix_container.items()
+                ],
+                number_of_clps=int(self.number_of_clps),
+            )
 
     def calculate_full_matrices(self):
         """Calculate the full matrices of the datasets in the dataset group."""
@@ -732,6 +749,29 @@ class MatrixProviderLinked(MatrixProvider):
                 group_matrix_single = group_matrix_single.create_weighted_matrix(weight)
 
             self._aligned_matrices[i] = group_matrix_single
+        if _vt.ENABLED and _vt.first(self):
+            provider = self._data_provider
+            _vt.emit(
+                "stacked",
+                datasets_in_group=list(self.group.dataset_models),
+                items=_vt.reduction_items(self.group.model),
+                dataset_full={
+                    label: list(container.clp_labels)
+                    for label, container in self._matrix_containers.items()
+                },
+                blocks=[
+                    {
+                        "g": float(provider.aligned_global_axis[i]),
+                        "members": list(
+                            provider.group_definitions[provider.get_aligned_group_label(i)]
+                        ),
+                        "full": list(self._aligned_full_clp_labels[i]),
+                        "reduced": list(self._aligned_matrices[i].clp_labels),
+                    }
+                    for i in range(len(self._aligned_matrices))
+                ],
+                number_of_clps=int(self.number_of_clps),
+            )
 
     def align_full_clp_labels(self) -> dict[str, list[str]]:
         """Align the unreduced clp labels.
